@@ -73,8 +73,10 @@ class Gen:
             elif k < 78:
                 out.append(["xbump", self.id()])
             elif k < 86:
-                if r.chance(0.25):
+                if r.chance(0.2):
                     out.append(["tf", self.id(), self.site()])
+                elif r.chance(0.2):
+                    out.append(["tfc", self.id(), self.site()])
                 else:
                     out.append(["tc", self.id(), r.choice(["yield", "call", "throw", "none", "yield2"]), self.site()])
             elif k < 89:
@@ -175,6 +177,13 @@ def render(ir):
                 emit('print(("chk", "%s"));' % st[2], ind + 1)
                 emit("} finally {", ind)
                 emit('print(("ev", %d, me, "tf-finally", acc));' % st[1], ind + 1)
+                emit("}", ind)
+            elif k == "tfc":
+                # a fiber switch inside a finally block, possibly while an exception is propagating through it
+                emit("try {", ind)
+                emit('print(("chk", "%s"));' % st[2], ind + 1)
+                emit("} finally {", ind)
+                emit('print(("ev", %d, me, "tfc", fibers[print(("pick", %d))].call()));' % (st[1], nf), ind + 1)
                 emit("}", ind)
             elif k == "chk":
                 emit('print(("chk", "%s"));' % st[1], ind)
@@ -321,6 +330,8 @@ def model(ir, tape, faults, chooser=None):
             probes.inc("fault_kind:" + kd)
             raise Thrown("RuntimeError" if kd == "CompileError" else kd, "RuntimeError" if kd == "CompileError" else kd)
 
+    taint = set()
+    pend = [0]                # > 0 while a finally block that runs because of an exception is making a fiber call
     exports = [None] * nf     # counter cell of the fiber instance that last ran its export statement
     state = ["new"] * nf      # new, susp, active (running or waiting for a callee), fin
     gens = [None] * nf
@@ -398,6 +409,8 @@ def model(ir, tape, faults, chooser=None):
         exports[me] = [0]
 
         def call_stmt(evid):
+            if pend[0] > 0:
+                taint.add("K-try-inside-pending-finally")       # the call block is a try/catch statement
             t = pick(nf, "target", me)
             m = pick(4, "mode", t)
             v = pick(1000, "value")
@@ -459,11 +472,38 @@ def model(ir, tape, faults, chooser=None):
                     # (not Python's try/finally around the yield: closing an abandoned generator would run it,
                     # whereas an abandoned suspended fiber never runs its finally block)
                     probes.inc("transfer:yield_inside_try_finally")
+                    if pend[0] > 0:
+                        taint.add("K-try-inside-pending-finally")
                     st8["inbox"] = yield st8["acc"]
+                    if pend[0] > 0:
+                        taint.add("K-try-inside-pending-finally")
                     try:
                         chk(st[2])
                     finally:
                         ev.append([num(st[1]), num(me), s("tf-finally"), num(st8["acc"])])
+                elif k == "tfc":
+                    if pend[0] > 0:
+                        taint.add("K-try-inside-pending-finally")
+                    pending = None
+                    try:
+                        chk(st[2])
+                    except Thrown as t_:
+                        pending = t_
+                        probes.inc("fiber_switch_inside_finally_with_exception_in_flight")
+                    t = pick(nf, "target", me)
+                    if pending is not None:
+                        pend[0] += 1
+                    try:
+                        r = do_call(me, t, 0, 0)
+                    except FErr as e_:
+                        # the failed call replaces whatever was propagating
+                        raise Thrown(e_.classes[0] if len(e_.classes) == 1 else "Error", "Error")
+                    finally:
+                        if pending is not None:
+                            pend[0] -= 1
+                    ev.append([num(st[1]), num(me), s("tfc"), enc(r)])
+                    if pending is not None:
+                        raise pending
                 elif k == "chk":
                     chk(st[1])
                 elif k == "throw":
@@ -473,10 +513,14 @@ def model(ir, tape, faults, chooser=None):
                     ev.append([num(st[1]), num(me), s("fin"), b(state[t] == "fin")])
                 elif k == "tc":
                     inner = st[2]
+                    if pend[0] > 0:
+                        taint.add("K-try-inside-pending-finally")
                     try:
                         if inner == "yield":
                             probes.inc("transfer:yield_inside_try")
                             st8["inbox"] = yield st8["acc"]
+                            if pend[0] > 0:
+                                taint.add("K-try-inside-pending-finally")   # resumed inside its try block meanwhile
                         elif inner == "yield2":
                             probes.inc("illegal:yield_two_args")
                             raise Thrown("TypeError", "TypeError")
@@ -487,6 +531,8 @@ def model(ir, tape, faults, chooser=None):
                         chk(st[3])
                         ev.append([num(st[1]), num(me), s("tc-ok"), num(st8["acc"])])
                     except Thrown as t:
+                        if pend[0] > 0:
+                            taint.add("K-try-inside-pending-finally")
                         probes.inc("handler_in_fiber")
                         ev.append([num(st[1]), num(me), s("tc"), cls(t.klass), num(st8["acc"])])
             return None
@@ -534,7 +580,7 @@ def model(ir, tape, faults, chooser=None):
     except Fatal as f:
         outcome = {"uncaught": f.needle}
     return {"events": ev, "outcome": outcome, "fired": fired, "probes": probes, "transfers": transfers,
-            "tape_used": tp[0]}
+            "tape_used": tp[0], "taint": taint}
 
 
 def compare(exp, hist):
@@ -674,6 +720,16 @@ class C09:
         res = {"stats": stats, "nontrivial": len(exp["transfers"]) >= 2, "key": key, "scenario": sc,
                "sample": {"source": src, "tape_prefix": sc["tape"][:24], "faults": sc["faults"],
                           "expected_events_prefix": exp["events"][:30], "transfers": exp["transfers"][:30]}}
+        if exp["taint"] and not sc.get("ignore_taint"):
+            # the exception-in-flight flag is VM-wide (open C08 finding K-try-inside-pending-finally): a try statement that a
+            # fiber runs while ANOTHER fiber's finally block is waiting with a pending exception misbehaves
+            res["taints"] = sorted(exp["taint"])
+            stats.inc("scenarios_tainted")
+            h = ctx.run("checked", sc)
+            po = process_outcome(h)
+            if po and po[0] in ("hang", "crash"):
+                res["violation"] = {"class": po[0], "msg": "[checked] " + po[1]}
+            return res
         configs = [("checked", None), ("release", None)]
         if sc.get("gc_slice"):
             configs.append(("checked+hooks", {"gc": {"mode": "always", "quarantine": True}}))
